@@ -28,6 +28,8 @@ def base_configs():
         dict(name="decl-a", mode="decl", seed=5, budget=70, D=2),
         dict(name="spec-a", mode="spec", seed=7, budget=70, D=2),
         dict(name="spec-b", mode="spec", seed=31, budget=60, D=2),
+        dict(name="det-clip", mode="det", seed=13, budget=60, D=2, target="clip"),
+        dict(name="det-const", mode="det", seed=17, budget=50, D=2, target="const"),
     ]
 
 
@@ -57,6 +59,10 @@ def run_faulted(cfg):
         if np.any(x < LB) or np.any(x > UB) or not np.all(np.isfinite(x)):
             out_of_box.append(x.tolist())
         v = float(np.sum((x - 0.3) ** 2) + 0.3 * np.sum(np.abs(x)))
+        if cfg.get("target") == "clip":       # a saturated objective: the largest values of the training set are exactly tied
+            v = min(v, 0.5)
+        elif cfg.get("target") == "const":    # all values tied
+            v = 1.25
         if mode != "det":
             v = v + 0.1 * float(noise_rng.standard_normal())
         calls.append((x.tolist(), v))
